@@ -132,69 +132,72 @@ Section TextSpec.
   Definition text_spec (c : tcall) (w : nat) : R :=
     at_world c w (if bad w then [8] else text_answer c (contents w)).
 
-  (* the object holds the parse of some (parsable) file state between the recorded stat version and now
-     (version S v = the stat version of file state v; version 0 = "stat failed" says nothing) *)
-  Definition t_inv (o : tobj) (w : nat) : Prop :=
-    forall v, fver o = Some (S v) -> exists wc, v <= wc /\ wc <= w /\ parsed o = contents wc /\ bad wc = false.
+  (* worlds are file IDENTITIES: an environment event switches the path to a file state, possibly back to an
+     earlier one (a release symlink switched and rolled back) whose stat result -- hence version S w -- is
+     the same as before.  The object remembers a version together with the parse of THAT file state
+     (version 0 = "stat failed" says nothing) *)
+  Definition t_inv (o : tobj) : Prop :=
+    forall v, fver o = Some (S v) -> parsed o = contents v /\ bad v = false.
 
-  Lemma fresh_read sv c l w1 w2 l2 o2 : tc l = c -> w1 <= w2 ->
-    (if bad w2 then
-       ({| tc := tc l; statv := sv; tres := at_world (tc l) w2 [8] |}, {| fver := None; parsed := [] |})
-     else ({| tc := tc l; statv := sv;
-              tres := at_world (tc l) w2 (text_answer (tc l) (parsed {| fver := sv; parsed := contents w2 |})) |},
-           {| fver := sv; parsed := contents w2 |})) = (l2, o2) ->
-    (sv = None \/ sv = Some 0 \/ sv = Some (S w1)) ->
-    (exists wr, w1 <= wr /\ wr <= w2 /\
-       tres l2 = at_world c w2 (if bad wr then [8] else text_answer c (contents wr))) /\ t_inv o2 w2.
+  (* a call during which the path does not change (stat and read see the same file state w) answers for w,
+     whatever happened before -- failed reloads and switches back to an earlier state included -- and
+     keeps the invariant *)
+  Theorem text_call_spec ce c l o w l1 o1 l2 o2 :
+    t_inv o -> tc l = c -> stat_faulted c = false ->
+    t_stat ce l o w = (l1, o1) -> t_read contents bad ce l1 o1 w = (l2, o2) ->
+    tres l2 = at_world c w (if bad w then [8] else text_answer c (contents w)) /\ t_inv o2.
   Proof.
-    intros Hc Hw H Hsv. destruct (bad w2) eqn:Eb; injection H as <- <-; cbn [tres parsed fver]; split.
-    - exists w2. rewrite Eb, Hc. repeat split; auto.
-    - intros v Hv. discriminate.
-    - exists w2. rewrite Eb, Hc. repeat split; auto.
-    - intros v Hv. cbn [fver] in Hv. destruct Hsv as [ -> | [ -> | -> ]]; try discriminate. injection Hv as <-.
-      exists w2. cbn [parsed]. repeat split; auto.
-  Qed.
-
-  (* a call whose stat sees state w1 and whose read sees state w2 (the file may have been edited in
-     between) answers exactly as for ONE file state wr with w1 <= wr <= w2, observed at w2 *)
-  Theorem text_call_spec ce c l o w1 w2 l1 o1 l2 o2 :
-    t_inv o w1 -> w1 <= w2 -> tc l = c -> stat_faulted c = false ->
-    t_stat ce l o w1 = (l1, o1) -> t_read contents bad ce l1 o1 w2 = (l2, o2) ->
-    (exists wr, w1 <= wr /\ wr <= w2 /\
-                tres l2 = at_world c w2 (if bad wr then [8] else text_answer c (contents wr))) /\ t_inv o2 w2.
-  Proof.
-    intros Hi Hw Hc Hnf Hs Hr. unfold t_stat in Hs. rewrite <- Hc in Hnf. rewrite Hnf in Hs. injection Hs as <- <-.
+    intros Hi Hc Hnf Hs Hr. unfold t_stat in Hs. rewrite <- Hc in Hnf. rewrite Hnf in Hs. injection Hs as <- <-.
     unfold t_read in Hr. cbn [statv tc] in Hr.
+    assert (Hfresh : forall sv, (sv = None \/ sv = Some (S w)) ->
+              (if bad w then
+                 ({| tc := tc l; statv := sv; tres := at_world (tc l) w [8] |}, {| fver := None; parsed := [] |})
+               else ({| tc := tc l; statv := sv;
+                        tres := at_world (tc l) w (text_answer (tc l) (parsed {| fver := sv; parsed := contents w |})) |},
+                     {| fver := sv; parsed := contents w |})) = (l2, o2) ->
+              tres l2 = at_world c w (if bad w then [8] else text_answer c (contents w)) /\ t_inv o2).
+    { intros sv Hsv H. destruct (bad w) eqn:Eb; injection H as <- <-; cbn [tres parsed fver]; rewrite Hc; split; auto.
+      - intros v Hv. discriminate.
+      - intros v Hv. cbn [fver] in Hv. destruct Hsv as [ -> | -> ]; [discriminate|]. injection Hv as <-. auto. }
     destruct ce; cbn [andb] in Hr.
-    - destruct (opt_nat_eqb (Some (S w1)) (fver o)) eqn:E.
+    - destruct (opt_nat_eqb (Some (S w)) (fver o)) eqn:E.
       + injection Hr as <- <-. cbn [tres]. unfold opt_nat_eqb in E.
         destruct (fver o) as [v|] eqn:Ev; [|discriminate]. apply Nat.eqb_eq in E. subst v.
-        destruct (Hi _ Ev) as (wc & H1 & H2 & H3 & H4). assert (wc = w1) by lia. subst wc.
-        split.
-        * exists w1. rewrite Hc, H3, H4. repeat split; auto.
-        * intros v Hv. rewrite Ev in Hv. injection Hv as <-. exists w1. repeat split; auto.
-      + eapply fresh_read; eauto.
-    - eapply fresh_read; eauto.
+        destruct (Hi _ Ev) as (H3 & H4). rewrite Hc, H3, H4. split; [reflexivity|exact Hi].
+      + apply (Hfresh (Some (S w))); auto.
+    - apply (Hfresh None); auto.
+  Qed.
+
+  (* the path is switched between the call's stat (state w1) and its read (state w2 <> w1): the call re-reads
+     and answers for the state it read *)
+  Theorem text_call_edit_between ce c l o w1 w2 l1 o1 l2 o2 :
+    tc l = c -> stat_faulted c = false -> fver o <> Some (S w1) ->
+    t_stat ce l o w1 = (l1, o1) -> t_read contents bad ce l1 o1 w2 = (l2, o2) ->
+    tres l2 = at_world c w2 (if bad w2 then [8] else text_answer c (contents w2)).
+  Proof.
+    intros Hc Hnf Hne Hs Hr. unfold t_stat in Hs. rewrite <- Hc in Hnf. rewrite Hnf in Hs. injection Hs as <- <-.
+    unfold t_read in Hr. cbn [statv tc] in Hr.
+    assert (E : opt_nat_eqb (Some (S w1)) (fver o) = false).
+    { unfold opt_nat_eqb. destruct (fver o) as [v|]; auto. apply Nat.eqb_neq. intros Ev. apply Hne. congruence. }
+    destruct ce; cbn [andb] in Hr.
+    - rewrite E in Hr. destruct (bad w2); injection Hr as <- <-; cbn [tres parsed]; rewrite Hc; reflexivity.
+    - destruct (bad w2); injection Hr as <- <-; cbn [tres parsed]; rewrite Hc; reflexivity.
   Qed.
 
   (* a call whose stat FAILS transiently (the file is readable) simply re-reads the file -- unless the
      previous reload was itself triggered by such a failure: every failure yields the same version string *)
   Theorem text_call_stat_fault c l o w1 w2 l1 o1 l2 o2 :
-    w1 <= w2 -> tc l = c -> stat_faulted c = true -> fver o <> Some 0 ->
+    tc l = c -> stat_faulted c = true -> fver o <> Some 0 ->
     t_stat true l o w1 = (l1, o1) -> t_read contents bad true l1 o1 w2 = (l2, o2) ->
-    tres l2 = at_world c w2 (if bad w2 then [8] else text_answer c (contents w2)) /\ t_inv o2 w2.
+    tres l2 = at_world c w2 (if bad w2 then [8] else text_answer c (contents w2)) /\ t_inv o2.
   Proof.
-    intros Hw Hc Hf Hne Hs Hr. unfold t_stat in Hs. rewrite <- Hc in Hf. rewrite Hf in Hs. injection Hs as <- <-.
+    intros Hc Hf Hne Hs Hr. unfold t_stat in Hs. rewrite <- Hc in Hf. rewrite Hf in Hs. injection Hs as <- <-.
     unfold t_read in Hr. cbn [statv tc andb] in Hr.
     assert (E : opt_nat_eqb (Some 0) (fver o) = false).
     { unfold opt_nat_eqb. destruct (fver o) as [[|v]|]; auto. congruence. }
     rewrite E in Hr.
-    destruct (fresh_read (Some 0) c l w2 w2 l2 o2 Hc (le_n _) Hr (or_intror (or_introl eq_refl))) as ((wr & H1 & H2 & H3) & Hi).
-    assert (wr = w2) by lia. subst wr. split; assumption.
+    destruct (bad w2); injection Hr as <- <-; cbn [tres parsed fver]; rewrite Hc; split; auto; intros v Hv; discriminate.
   Qed.
-
-  Lemma t_inv_mono o w w' : t_inv o w -> w <= w' -> t_inv o w'.
-  Proof. intros H Hw v Hv. destruct (H v Hv) as (wc & ? & ? & ? & ?). exists wc. repeat split; auto; lia. Qed.
 End TextSpec.
 
 (* ---------- YAML: cache validity over all interleavings ---------- *)
